@@ -256,6 +256,14 @@ Definition init (ep be : string) : init_result :=
   if (List.length (dedup ins) <? size)%nat then Rejected RWrongNumber
   else rewrite_loop ins outs pat [].
 
+Definition accepted_b (r : init_result) : bool :=
+  match r with Accepted _ _ => true | Rejected _ => false end.
+
+(* a configuration with several endpoints (one backend each): initEndpoints walks the list and
+   returns the first error; every endpoint is checked against its OWN declared parameters *)
+Definition init_config (eps : list (string * string)) : bool :=
+  forallb (fun e => accepted_b (init (fst e) (snd e))) eps.
+
 (* ---- request time ------------------------------------------------------------------------ *)
 (* the Params map a router adapter builds for a request that matched the endpoint: one entry
    per declared parameter, keyed by the adapter's capitalisation.  The list order stands for
